@@ -208,30 +208,41 @@ def run(ctx):
     model.mc(OBS, {"MaxId": 1}, ctx, "StorageObs_neg", properties=["NeverIndexError"], view="View", expect_violation=True,
              extra="CONSTRAINT ObsSmall")
     rnd = random.Random(ctx.seed * 7919 + 14)
-    h = Harness()
     scens = scenarios(rnd, quick)
-    worlds, ws = poolsim.explore_all(h, scens, ctx.seed * 7919 + 14, 400 if quick else 15000, ctx, est_len=120)
-    steps = sum(w.steps for w in worlds)
-    outcomes = {}
-    for w in worlds:
-        outcomes[w.outcome] = outcomes.get(w.outcome, 0) + 1
-    ctx.extra["executions"] = {"count": len(worlds), "visible_ops": steps, "outcomes": outcomes}
-    traces = [to_trace(w) for w in worlds]
-    verdicts = tracecheck.validate(OBS, model.constants_block({"MaxId": 1}), traces, ctx, "C14")
-    for w, s, tr, (matched, total) in zip(worlds, ws, traces, verdicts):
-        ctx.traces += 1
-        ctx.case(("C14", json.dumps(s, sort_keys=True), tuple(w.schedule)))
-        exc = w.any_exc
-        if matched != total or w.outcome != "ok" or exc is not None:
-            ev = tr[matched]["op"] if matched < total else None
-            sig = {"kind": "schedule", "scenario": s["name"], "event": ev and ev["op"], "outcome": w.outcome}
-            desc = ("C14: scenario %s: execution (schedule of %d steps, outcome %s%s) is rejected by the observer specification at event %d %s"
-                    % (json.dumps(s, sort_keys=True), len(w.schedule), w.outcome, ", a process raised %s" % (exc,) if exc else "", matched,
-                       json.dumps(ev)))
-            ctx.violation(sig, desc, {"engine": "simworld", "scenario": s, "schedule": w.schedule,
-                                      "events": [t["op"] for t in tr][:200], "rejected_at": matched})
-    w = worlds[len(worlds) // 2]
-    ctx.sample({"scenario": ws[len(worlds) // 2], "schedule": w.schedule[:40], "events": [dict(e) for e in w.events][:20]})
+    controlled = True
+    try:
+        h = Harness()
+        probe = h.execute(scens[0], S.scripted_chooser([]))
+        pexc = next((t.exc for t in probe.tasks if t.exc is not None), None)
+        if isinstance(pexc, (ImportError, NotImplementedError, AttributeError, TypeError)):
+            raise pexc
+    except Exception as e:
+        ctx.note("controlled execution not possible (%r); only the real-process leg runs" % (e,))
+        ctx.extra["controlled_legs"] = "not-run"
+        controlled = False
+    if controlled:
+        worlds, ws = poolsim.explore_all(h, scens, ctx.seed * 7919 + 14, 400 if quick else 15000, ctx, est_len=120)
+        steps = sum(w.steps for w in worlds)
+        outcomes = {}
+        for w in worlds:
+            outcomes[w.outcome] = outcomes.get(w.outcome, 0) + 1
+        ctx.extra["executions"] = {"count": len(worlds), "visible_ops": steps, "outcomes": outcomes}
+        traces = [to_trace(w) for w in worlds]
+        verdicts = tracecheck.validate(OBS, model.constants_block({"MaxId": 1}), traces, ctx, "C14")
+        for w, s, tr, (matched, total) in zip(worlds, ws, traces, verdicts):
+            ctx.traces += 1
+            ctx.case(("C14", json.dumps(s, sort_keys=True), tuple(w.schedule)))
+            exc = w.any_exc
+            if matched != total or w.outcome != "ok" or exc is not None:
+                ev = tr[matched]["op"] if matched < total else None
+                sig = {"kind": "schedule", "scenario": s["name"], "event": ev and ev["op"], "outcome": w.outcome}
+                desc = ("C14: scenario %s: execution (schedule of %d steps, outcome %s%s) is rejected by the observer specification at event %d %s"
+                        % (json.dumps(s, sort_keys=True), len(w.schedule), w.outcome, ", a process raised %s" % (exc,) if exc else "", matched,
+                           json.dumps(ev)))
+                ctx.violation(sig, desc, {"engine": "simworld", "scenario": s, "schedule": w.schedule,
+                                          "events": [t["op"] for t in tr][:200], "rejected_at": matched})
+        w = worlds[len(worlds) // 2]
+        ctx.sample({"scenario": ws[len(worlds) // 2], "schedule": w.schedule[:40], "events": [dict(e) for e in w.events][:20]})
     # fidelity of the shims: the same observer specification applied to executions with REAL processes and files
     from adapters import realstorage
     rtraces, rmeta = [], []
